@@ -184,14 +184,7 @@ class PInterp(FHInterp):
                 return Opq("isin", [recv, args[0]])
             pv = as_pv(recv)
             if pv is not None:
-                if meth in ("mean", "median", "min", "max", "sum"):
-                    axis = kwargs.get("axis", args[0] if args else None)
-                    if as_lin_val(axis) == Lin.c(1):
-                        return pv.then("%s(axis=1)" % meth)
-                    return Opq("aggregate-over-time:" + meth, [recv])
-                if meth in ("rename", "copy", "astype", "fillna", "to_frame", "squeeze"):
-                    return pv.then(meth)
-                return Opq("m:" + meth, [recv] + list(args))
+                return self.pv_method(recv, pv, meth, args, kwargs)
             if meth in ("inverse_transform", "transform") and args and as_pv(args[0]) is not None and not isinstance(recv, SelfV):
                 return as_pv(args[0]).then(meth)
             if meth == "split" and isinstance(recv, (Opq, SelfV)) and len(args) == 1:
@@ -202,7 +195,38 @@ class PInterp(FHInterp):
             return Tup([Opq("split-positions", [args[0], K("train")]), Opq("split-positions", [args[0], K("test")])])
         return NotImplemented
 
+    def pv_method(self, recv, pv, meth, args, kwargs):
+        """A pandas method applied to a prediction-like value."""
+        if meth in ("mean", "median", "min", "max", "sum"):
+            axis = kwargs.get("axis", args[0] if args else None)
+            if as_lin_val(axis) == Lin.c(1):
+                return pv.then("%s(axis=1)" % meth)
+            return Opq("aggregate-over-time:" + meth, [recv])
+        if meth in ("rename", "copy", "astype", "fillna", "to_frame", "squeeze"):
+            return pv.then(meth)
+        return Opq("m:" + meth, [recv] + list(args))
+
+    def ev_Dict(self, e, st, frame):
+        # a dict literal with constant keys: a finite table
+        if e.keys and all(isinstance(k, ast.Constant) for k in e.keys):
+            return Opq("table", [Tup([K(k.value), self.ev(v, st, frame)]) for k, v in zip(e.keys, e.values)])
+        return Opq("expr:Dict")
+
     def ev_Call(self, e, st, frame):
+        if not isinstance(e.func, (ast.Name, ast.Attribute)):
+            # calling a value: bound pandas methods picked from a table, e.g. {"mean": df.mean, ...}[name](axis=1)
+            f = self.ev(e.func, st, frame)
+            cands = f.args if isinstance(f, Opq) and f.tag == "one-of" else [f]
+            if cands and all(isinstance(c, Opq) and c.tag.startswith("attr:") and len(c.args) == 1 and as_pv(c.args[0]) is not None
+                             for c in cands) and not any(isinstance(a, ast.Starred) for a in e.args):
+                args = [self.ev(a, st, frame) for a in e.args]
+                kwargs = {k.arg: self.ev(k.value, st, frame) for k in e.keywords if k.arg}
+                outs = []
+                for c in cands:
+                    r = self.pv_method(c.args[0], as_pv(c.args[0]), c.tag[5:], args, kwargs)
+                    if not any(r == o for o in outs):
+                        outs.append(r)
+                return outs[0] if len(outs) == 1 else Alt([(o, st.facts) for o in outs])
         v = FHInterp.ev_Call(self, e, st, frame)
         if isinstance(v, Opq) and v.tag.startswith("call:") and isinstance(e.func, ast.Attribute):
             recv = self.ev(e.func.value, st, frame)
@@ -255,6 +279,18 @@ class PInterp(FHInterp):
             if how == "loc":
                 return PV(index=idx, data=target, ops=("loc",))
             return Opq("iloc", [target, idx])
+        if isinstance(base, Opq) and base.tag == "table" and not isinstance(e.slice, ast.Slice):
+            key = self.ev(e.slice, st, frame)
+            rows = [(r.items[0], r.items[1]) for r in base.args]
+            if isinstance(key, K):
+                hit = [v for k, v in rows if k == key]
+                return hit[0] if hit else Opq("missing-key", [key])
+            # key not known statically: the entry is one of the table's values (a missing key raises)
+            vals = []
+            for _, v in rows:
+                if not any(v == w for w in vals):
+                    vals.append(v)
+            return vals[0] if len(vals) == 1 else Opq("one-of", vals)
         pv = as_pv(base)
         if pv is not None and not isinstance(e.slice, ast.Slice):
             idx = self.ev(e.slice, st, frame)
